@@ -10,3 +10,5 @@ import VibeProof.Props.C10
 #print axioms VibeProof.C10.C10_check_never_false
 #print axioms VibeProof.C10.C10_conflict_iff
 #print axioms VibeProof.C10.C10_append_skip_unsound
+#print axioms VibeProof.C10.C10_add_check_accepted_all_rows
+#print axioms VibeProof.C10.C10_add_check_rejected_unchanged
